@@ -15,6 +15,7 @@ import Reamber.Lemmas.TimingBeats
 import Reamber.Lemmas.Argsort
 import Reamber.Lemmas.TimingD22
 import Reamber.Lemmas.TimingClosedForm
+import Reamber.Lemmas.TimingInverse
 import Reamber.Spec.Timing
 import Reamber.Generated.Consts
 
